@@ -90,6 +90,9 @@ func init() {
 			o.Virtual = r.Intn(2) == 0
 			o.VirtualSet = r.Intn(2) == 0
 			capNS(&o)
+			if extremeScale(r, &o) {
+				c.Family += "+extreme-scale"
+			}
 			c.Opts = o
 			return c
 		},
@@ -210,6 +213,10 @@ func checkC02(c *core.Case, res core.RunResult) Result {
 // ---------------------------------------------------------------------------------------------------------------- C03
 
 func geomGraph(r *rand.Rand) (string, [][]string) {
+	if r.Intn(40) == 0 {
+		g := gen.LongEdges(r)
+		return g.Family, gen.Names(g)
+	}
 	switch r.Intn(12) {
 	case 0:
 		g := gen.Deep(r, 5+r.Intn(20), 2, 0.2)
@@ -271,6 +278,9 @@ func init() {
 			o.NodeSpacing = spacingVal(r, c.Regime, true)
 			o.LayerSpacing = spacingVal(r, c.Regime, false)
 			capNS(&o)
+			if extremeScale(r, &o) {
+				c.Family += "+extreme-scale"
+			}
 			c.Opts = o
 			return c
 		},
@@ -412,6 +422,9 @@ func init() {
 			o.NodeSpacing = spacingVal(r, c.Regime, true)
 			o.LayerSpacing = spacingVal(r, c.Regime, true)
 			capNS(&o)
+			if extremeScale(r, &o) {
+				c.Family += "+extreme-scale"
+			}
 			c.Opts = o
 			return c
 		},
@@ -545,6 +558,9 @@ func init() {
 			o.NodeSpacing = spacingVal(r, c.Regime, true)
 			o.LayerSpacing = spacingVal(r, c.Regime, true)
 			capNS(&o)
+			if extremeScale(r, &o) {
+				c.Family += "+extreme-scale"
+			}
 			c.Opts = o
 			return c
 		},
@@ -706,6 +722,9 @@ func init() {
 			o.LayerSpacing = spacingVal(r, c.Regime, false)
 			o.Virtual = r.Intn(2) == 0
 			capNS(&o)
+			if extremeScale(r, &o) {
+				c.Family += "+extreme-scale"
+			}
 			c.Opts = o
 			return c
 		},
@@ -910,6 +929,9 @@ func init() {
 			o.LayerSpacing = spacingVal(r, c.Regime, true)
 			o.Virtual = r.Intn(3) == 0
 			capNS(&o)
+			if extremeScale(r, &o) {
+				c.Family += "+extreme-scale"
+			}
 			c.Opts = o
 			return c
 		},
